@@ -61,6 +61,10 @@ type SecOp struct {
 	Whence int       `json:"whence,omitempty"`
 	Pat    int       `json:"pat,omitempty"` // payload content: 0 attributable pseudo-random, 1 all 0x00, 2 all 0xff
 	Fault  *SecFault `json:"fault,omitempty"`
+	// Stall > 0: the first non-empty underlying call of this operation is SLOW:
+	// that many nanoseconds of simulated time pass before the disk serves it
+	// (timers and deadlines of the code under test fire; no real time is spent)
+	Stall int64 `json:"stall_ns,omitempty"`
 }
 
 type SecFault struct {
@@ -360,6 +364,9 @@ func (Section) Generate(seed uint64, tier string) engine.Plan {
 				}
 				op.Fault = f
 			}
+			if (op.Op == "write" || op.Op == "writeat") && op.Len > 0 && r.Chance(1, 12) {
+				op.Stall = r.PickInt64(1000000, 200000000, 2000000000, 60000000000, 3600000000000)
+			}
 			w.Ops = append(w.Ops, op)
 		}
 		p.Writers = append(p.Writers, w)
@@ -517,12 +524,14 @@ func (Section) Execute(pl engine.Plan, c *engine.RunCtx) *engine.Failure {
 	c.Tasks = len(p.Writers)
 	type owner struct{ base, limit int64 }
 	owners := make([]owner, len(p.Writers))
+	handles := make([]*simio.Handle, len(p.Writers))
 
 	for wi := range p.Writers {
 		wi := wi
 		w := p.Writers[wi]
 		sch.Spawn(func(t *engine.Task) {
 			h := disk.Handle(wi, t.Yield)
+			handles[wi] = h
 			// the model works in ABSOLUTE disk offsets
 			var under io.WriterAt = h
 			shift := int64(0)
@@ -577,6 +586,10 @@ func (Section) Execute(pl engine.Plan, c *engine.RunCtx) *engine.Failure {
 				if op.Fault != nil {
 					arm = simio.Arm{Active: true, Budget: op.Fault.Budget, Kind: op.Fault.Kind, Sticky: op.Fault.Sticky, Err: errInjected}
 					st.Inc("fault.configured.disk." + op.Fault.Kind)
+				}
+				if op.Stall > 0 {
+					arm.StallNs = op.Stall
+					st.Inc("fault.configured.io.stall")
 				}
 				h.BeginOp(arm)
 				fired := false
@@ -808,6 +821,17 @@ func (Section) Execute(pl engine.Plan, c *engine.RunCtx) *engine.Failure {
 					c.FaultsFired++
 				}
 				c.LibCalls++
+				// --- C18.late: "the returned count equals the bytes passed through":
+				// whatever the call returned, nothing may reach the underlying writer
+				// once it HAS returned (a slow underlying call that was abandoned
+				// under a timeout still lands)
+				if h.LateCalls > 0 {
+					fail = engine.Failf("C18.late", step, "%s(len=%d) had returned, then %d more underlying call(s) arrived: %s", op.Op, op.Len, h.LateCalls, h.LateNote)
+					return
+				}
+				if h.ForeignCalls > 0 {
+					st.Inc("probe.C18.underlying_call_on_a_goroutine_of_the_library")
+				}
 				// --- C18.cursor: the observer seek reports the model's cursor
 				observe := sw != nil
 				switch w.Observe {
@@ -837,6 +861,16 @@ func (Section) Execute(pl engine.Plan, c *engine.RunCtx) *engine.Failure {
 	c.Switches = sch.NumSwitches()
 	if fail != nil {
 		return fail
+	}
+	// End of run: a call that arrives while no operation of its writer is in
+	// flight (only code that has created timers is looked at this way)
+	for wi, h := range handles {
+		if h == nil {
+			continue
+		}
+		if n, note := h.G.Late(); n > 0 {
+			return engine.Failf("C18.late", -1, "end of run: writer %d: %d underlying call(s) outside any operation: %s", wi, n, note)
+		}
 	}
 	// End of run: no byte anywhere on the disk is attributed to a writer that
 	// does not own its position.
@@ -943,6 +977,11 @@ func (Section) Shrink(pl engine.Plan) []engine.Plan {
 			}
 		}
 		for oi, op := range w.Ops {
+			if op.Stall > 0 {
+				q := clone()
+				q.Writers[wi].Ops[oi].Stall = 0
+				out = append(out, q)
+			}
 			if op.Fault != nil {
 				q := clone()
 				q.Writers[wi].Ops[oi].Fault = nil
